@@ -14,11 +14,13 @@ CONSTANTS
  InlineData = FALSE
  Conc = 3
  Probes = FALSE
- Exts = {FALSE}
+ Exts = {0}
  KeepSlots = TRUE
  TarUnverified = FALSE
  MTs = {TRUE}
  DigestHdrs = {"served"}
+ Sts = {"std"}
+ DropKinds = {"ueof"}
 INIT Init
 NEXT Next
 VIEW View
